@@ -39,6 +39,11 @@ Proof. intros N. unfold getz. rewrite zfind_set_other by exact N. reflexivity. Q
 Lemma getz_empty i : getz zempty i = 0.
 Proof. unfold getz. rewrite zfind_empty. reflexivity. Qed.
 
+(* linear-time list reversal (List.rev is quadratic once extracted) *)
+Definition frev {A : Type} (l : list A) : list A := rev_append l [].
+Lemma frev_rev {A : Type} (l : list A) : frev l = rev l.
+Proof. unfold frev. symmetry. apply rev_alt. Qed.
+
 (* [lo, lo+1, ..., lo+n-1] *)
 Fixpoint zseq (lo : Z) (n : nat) : list Z :=
   match n with O => [] | S k => lo :: zseq (lo + 1) k end.
